@@ -186,13 +186,31 @@ def model_lines(prog, flags):
 
 
 def run_model(progs, impl_outs):
+    """two output lines per program: the model's compilation (with the validator's verdict on
+    the model's own output, V=1/0) and the validator's verdict on the REAL bytes."""
     lines = []
     for p, o in zip(progs, impl_outs):
         lines += model_lines(p, (o or {}).get('flags'))
+        if o and o.get('hex') and not o.get('skip'):
+            lines.append(f'validate {o["hex"]} {o.get("origins", "")}')
+        else:
+            lines.append('validate -')
     out, err = common.run_driver('Sc3Verif/C01/Driver.lean', lines)
     if out is None:
         raise RuntimeError('driver failed: ' + err)
-    return out
+    if len(out) != 2 * len(progs):
+        raise RuntimeError(f'driver returned {len(out)} lines for {len(progs)} programs')
+    res = []
+    for i, o in enumerate(impl_outs):
+        m, v = out[2 * i], out[2 * i + 1]
+        selfv = None
+        if m.startswith('OK') and ' V=' in m:
+            m, selfv = m.rsplit(' V=', 1)
+        if o is not None:
+            o['validator_real'] = v
+            o['validator_model'] = selfv
+        res.append(m)
+    return res
 
 
 class Check(common.Check):
@@ -202,7 +220,7 @@ class Check(common.Check):
     THEOREMS = ['Sc3Verif.C01.' + t for t in (
         'opcode_table', 'every_alias_same_index', 'binopPlan_sound', 'mulAddPlan_sound',
         'sum3Plan_sound', 'sum4Plan_sound', 'sum_inputs_permuted', 'determineRate_is_max',
-        'listRate_is_max')]
+        'listRate_is_max', 'validate_sound', 'poly_isZero_sound')]
     N_QUICK = 500
     N_THOROUGH = 12000
     ASSUMPTIONS = [
@@ -226,6 +244,25 @@ class Check(common.Check):
         g = GraphGen(rng)
         return [g.program(i) for i in range(n)]
 
+    def extra_static(self):
+        """each operator carries the server opcode of that operator: probe every operator of the
+        reference table through the real constructors"""
+        if self.PROP != 'C01':
+            return []
+        from tools import opcodes_ref
+        res, err = common.run_impl('c01', 'opcode_probe', {'mode': 'nrt'}, timeout=600)
+        if res is None:
+            self.notes.append('opcode probe failed: ' + err[-300:])
+            return []
+        out = []
+        self._opcode_probe = len(res)
+        for arity, name, got in res:
+            want = (opcodes_ref.UNARY if arity == 'unary' else opcodes_ref.BINARY).index(name)
+            if got != want:
+                out.append({'what': f'{arity} operator {name!r} is emitted with special index {got}, the server opcode is {want}',
+                            'signature': f'c01:opcode:{arity}:{name}', 'case': {'operator': name, 'arity': arity}})
+        return out
+
     def impl(self, cases):
         res, err = common.run_impl('c01', 'run', {'cases': cases, 'mode': 'nrt'}, timeout=3000)
         if res is None:
@@ -243,13 +280,19 @@ class Check(common.Check):
         if canon.startswith('ERR'):
             want = mo if mo.startswith('ERR') else mo[:40]
             return None if canon == mo else {'impl': canon, 'model': want, 'detail': io.get('detail')}
-        if canon == mo:
-            return None
-        return {'impl': canon[:600], 'model': mo[:600]}
+        if canon != mo:
+            return {'impl': canon[:600], 'model': mo[:600]}
+        if io.get('validator_model') == '0':
+            return {'model_output_rejected_by_validator': mo[:300]}
+        return None
 
     def oracle(self, case, io):
         if io.get('sem'):
             return io['sem']
+        # the verified validator (Lean, theorem validate_sound) rejects the REAL emitted definition
+        if io.get('validator_real', '').startswith('INVALID') and io['canon'].startswith('OK') and not io.get('skip'):
+            return {'what': 'the verified translation validator rejects the emitted definition: '
+                            + io['validator_real'], 'signature': 'c01:validator'}
         if io['canon'].startswith('ERR') and case.get('surely_valid') and not io.get('skip'):
             return {'what': f'well-formed graph function did not compile: {io["canon"]} {io.get("detail", "")}',
                     'signature': 'c01:valid-rejected:' + io['canon'][4:]}
@@ -272,6 +315,8 @@ class Check(common.Check):
                 if cl in ('Sum3', 'Sum4', 'MulAdd', 'UnaryOpUGen', 'BinaryOpUGen', 'DC', 'Control'):
                     h['has:' + cl] = h.get('has:' + cl, 0) + 1
         h['events_total'] = sum(len(c['events']) for c in cases)
+        h['real_output_certified_by_validator'] = sum(1 for o in outs if o.get('validator_real') == 'VALID')
+        h['model_output_certified_by_validator'] = sum(1 for o in outs if o.get('validator_model') == '1')
         return h
 
     def shrink(self, case, fails):
